@@ -4,6 +4,7 @@ package main
 // documents of every format, schedule and fault enumeration.
 
 import (
+	"unicode/utf16"
 	"bytes"
 	"encoding/json"
 	"errors"
@@ -140,6 +141,28 @@ func sampleDocs(r *rng, perFormat int, big bool) []sampleDoc {
 			docs = append(docs, sampleDoc{f.format, f.file, b})
 		}
 	}
+	// documents in other encodings: UTF-16 (little and big endian, byte order mark) with characters outside the BMP, so
+	// that a read boundary can fall inside a surrogate pair; whatever the readers make of them (today: an error for TTML,
+	// garbage lines for the line-based formats) must not depend on the delivery schedule
+	utf16doc := func(text string, bigEndian bool) []byte {
+		u := utf16.Encode([]rune(text))
+		out := []byte{0xff, 0xfe}
+		if bigEndian {
+			out = []byte{0xfe, 0xff}
+		}
+		for _, c := range u {
+			if bigEndian {
+				out = append(out, byte(c>>8), byte(c))
+			} else {
+				out = append(out, byte(c), byte(c>>8))
+			}
+		}
+		return out
+	}
+	ttml16 := "<?xml version=\"1.0\" encoding=\"UTF-16\"?>\n<tt xmlns=\"http://www.w3.org/ns/ttml\"><body><div>\n<p begin=\"00:00:01.000\" end=\"00:00:02.000\">smile \U0001F600 and clef \U0001D11E</p>\n<p begin=\"00:00:03.000\" end=\"00:00:04.000\">plain</p>\n</div></body></tt>\n"
+	srt16 := "1\n00:00:01,000 --> 00:00:02,000\nsmile \U0001F600 and clef \U0001D11E\n\n"
+	docs = append(docs, sampleDoc{"ttml", "utf16le-astral", utf16doc(ttml16, false)}, sampleDoc{"ttml", "utf16be-astral", utf16doc(ttml16, true)},
+		sampleDoc{"srt", "utf16le-astral", utf16doc(srt16, false)}, sampleDoc{"webvtt", "utf16le-astral", utf16doc("WEBVTT\n\n"+strings.ReplaceAll(srt16, ",", "."), false)})
 	for i := 0; i < perFormat; i++ {
 		cues := plainCues(r, 1+r.intn(5))
 		for _, f := range formats {
